@@ -59,6 +59,17 @@ class OwnRule(FactRule):
         return ts
 
     def on_edge(self, ctx, node, label, refined, ts):
+        if ctx.fn is self.fn:
+            for expr, origins, before, after in refined:
+                names = origin_names(origins)
+                for x in list(ts):
+                    if isinstance(x, tuple) and x[0] == 'handed' and x[4] in names:
+                        ts = ts - frozenset([x])
+                        if after & Z == 0:       # the callee succeeded: it holds the block now
+                            ts = ts | frozenset([('held', x[1], x[2], x[3])])
+        return self.on_edge2(ctx, node, label, refined, ts)
+
+    def on_edge2(self, ctx, node, label, refined, ts):
         # paths that exist only after an allocation failed are outside the quantifier of the properties this rule
         # serves (no fault injection on malloc): remember it
         if ctx.fn is self.fn:
@@ -67,6 +78,37 @@ class OwnRule(FactRule):
                 lp = pstr(l)
                 if ('fresh', lp) in ts:
                     ts = ts | frozenset(['alloc-failed'])
+        return ts
+
+    def keeps(self, callee):
+        """parameter index -> field path, for parameters the callee stores into a struct field (it keeps the block)"""
+        cache = self.prog.__dict__.setdefault('_keeps_cache', {})
+        if callee not in cache:
+            res = {}
+            fs = [f for f in self.prog.lib_funcs() if f.name == callee]
+            if len(fs) == 1:
+                f = fs[0]
+                pidx = dict((p_.decl, i) for i, p_ in enumerate(f.params))
+                for (l, r, op, node) in assigned_fields(f):
+                    if op == '=' and r is not None:
+                        sr = strip(r)
+                        if sr is not None and sr.k == 'var' and sr.decl in pidx and (sr.t or '').rstrip().endswith('*'):
+                            res[pidx[sr.decl]] = pstr(l)
+            cache[callee] = res
+        return cache[callee]
+
+    def after_call(self, ctx, call, ts, mask):
+        # a callee that stores a pointer parameter into a field has taken the block over (if it succeeded)
+        if ctx.fn is self.fn:
+            n = callee_name(call)
+            if n and n != 'free':
+                kp = self.keeps(n)
+                for i, field in kp.items():
+                    if i + 1 < len(call.a):
+                        a = strip(call.a[i + 1])
+                        if a is not None and a.k == 'var' and a.dk == 'VarDecl':
+                            self.stores += 1
+                            ts = ts | frozenset([('handed', a.decl, '%s (stored by %s())' % (field, n), a.op, n)])
         return ts
 
     def on_call(self, ctx, call, ts):
@@ -88,10 +130,17 @@ def check_own_then_free(ck, prog, config, clause, units=None):
             continue
         if not calls_of(fn, ('free',)):
             continue
-        if not any(strip(r).k == 'var' and (strip(r).t or '').rstrip().endswith('*')
-                   for (l, r, op, node) in assigned_fields(fn) if r is not None and op == '='):
-            continue
         r = OwnRule(prog, fn)
+        direct = any(strip(r_).k == 'var' and (strip(r_).t or '').rstrip().endswith('*')
+                     for (l, r_, op, node) in assigned_fields(fn) if r_ is not None and op == '=')
+        handed = False
+        for ex in all_exprs(fn):
+            for c in calls_in(ex):
+                cn = callee_name(c)
+                if cn and cn != 'free' and r.keeps(cn):
+                    handed = True
+        if not direct and not handed:
+            continue
         run_rule(prog, fn, r)
         n += 1
         by = {}
